@@ -909,9 +909,9 @@ fn plan_jobs(rng: &mut Rng, tier: Tier, blocks: &mut Vec<String>) -> Vec<Job> {
         }
     }
 
-    // (1c) an own-named SUB-DIRECTORY `checkpoint_<pid>_<stamp>.bin/`: counted by the three scans (they look at names
-    //      only), never removable (`remove_file(..).ok()`), "the latest" when its stamp is the largest (then
-    //      `load_checkpoint` fails in `read_to_end`: only logged), still there after a successful run
+    // (1c) an own-named SUB-DIRECTORY `checkpoint_<pid>_<stamp>.bin/`: skipped by the three scans (regular files only,
+    //      since the C12 fix), so never "the latest" even with the largest stamp, not counted by retention, still
+    //      there after a successful run
     for (prog, mode) in [(fixed[1].clone(), Mode::Seq), (fixed[1].clone(), Mode::Par(2)), (fixed[3].clone(), Mode::Seq)] {
         for stamp in [5u64, u64::MAX] {
             for (pol, max) in [(Pol::Barrier, None), (Pol::Every(1), Some(1)), (Pol::Time(0), Some(0))] {
